@@ -1,6 +1,7 @@
 import Skglm.Driver.Ops
 import Skglm.Driver.OpsDatafit
 import Skglm.Model.Estimators
+import Skglm.Model.Estimators2
 /-
   Driver operations for the estimator glue: what `fit` hands to the solver, and the classifier
   conventions.
@@ -51,6 +52,30 @@ def estOps (op : String) : Option (P String) :=
       pure (" ".intercalate ((cacheIds reqs.toList).map (fun o => match o with
         | some i => "i" ++ toString i
         | none => "none")))
+  | "grp_converter" => some do   -- `grp_converter(groups, n_features)`: grp_indices then grp_ptr, or the error
+      let p ← pNat; let form ← tok
+      let arg : GroupsArg p ← (match form with
+        | "size" => do let k ← pNat; pure (GroupsArg.size k)
+        | "sizes" => do let l ← pNatList; pure (GroupsArg.sizes l)
+        | "lists" => do
+            let G ← pNat
+            let mut gs : Array (List (Fin p)) := Array.mkEmpty G
+            for _ in [0:G] do
+              let k ← pNat
+              let mut g : Array (Fin p) := Array.mkEmpty k
+              for _ in [0:k] do
+                g := g.push (← pFin p)
+              gs := gs.push g.toList
+            pure (GroupsArg.lists gs.toList)
+        | _ => throw s!"groups-form:{form}")
+      match grpConverter arg with
+      | .ok (idx, ptr) =>
+          pure (" ".intercalate (["ok", toString idx.length] ++ idx.map (fun j => toString j.1) ++
+                                 [toString ptr.length] ++ ptr.map toString))
+      | .error .zeroDivision => pure "err:ZeroDivisionError"
+      | .error .notMultiple => pure "err:ValueError"
+      | .error .emptyList => pure "err:IndexError"
+      | .error .countMismatch => pure "err:ValueError"
   | "svc_primal" => some do
       let n ← pNat; let p ← pNat; let X ← pMatNP n p; let ypm ← pVecN n; let dual ← pVecN n
       pure (fmtVec (svcPrimal X ypm dual))
